@@ -19,7 +19,7 @@ class C04(Prop):
             "quick = 3000 random triples over files of <= 6 lines")
     outside_model = "value formatting is input"
     trusted = []
-    fields = {"obs": ["outcome", "errors", "logs", "writes", "line"], "fs": "*", "counters": "*", "frame": "*"}
+    fields = {"obs": ["outcome", "errors", "logs", "writes", "touched", "~line"], "fs": "*", "counters": "*", "frame": ["prev", "added", "updated", "esc", "unesc"]}
     FRAME_TOKENS = [b"", b"a", b"---", b"/-/-/-/", b"[T - 1]", b"[U - 1]", b" ---", b"[T - 1] "]
 
     def frame_cases(self, rng, tier):
@@ -148,7 +148,7 @@ class C04(Prop):
             if k >= len(old) or not kv["pre"].startswith("ok:"):
                 continue
             same = old[k][2] == kv["pre"]
-            if same and (o["outcome"] != "passed" or o["writes"] != "-"):
+            if same and (o["outcome"] != "passed" or o["writes"] != "-" or o.get("touched", "-") != "-"):
                 fails.append({"msg": "obs %d: unchanged value under update mode: outcome=%s writes=%s" % (idx, o["outcome"], o["writes"])})
             if not same and o["outcome"] != "updated":
                 fails.append({"msg": "obs %d: changed value under update mode: outcome=%s" % (idx, o["outcome"])})
@@ -165,7 +165,7 @@ class C04(Prop):
             return fails
         for name, kv, idx, o in p3:
             if name == "match" and kv["pre"].startswith("ok:"):
-                if o["outcome"] != "passed" or o["errors"] != "0" or o["logs"] != "-" or o["writes"] != "-":
+                if o["outcome"] != "passed" or o["errors"] != "0" or o["logs"] != "-" or o["writes"] != "-" or o.get("touched", "-") != "-":
                     fails.append({"msg": "read-only follow-up obs %d: outcome=%s writes=%s" % (idx, o["outcome"], o["writes"])})
         if fss[1][2] != fss[2][2]:
             fails.append({"msg": "read-only follow-up changed the directory"})
